@@ -171,6 +171,19 @@ def table_geometry(facts, res):
                     if x.get("k") in ("MemberExpr", "CXXDependentScopeMemberExpr") and x.get("name") in level_tables:
                         users.setdefault(x["name"], set()).add(op)
     n = 0
+    # the closed forms below are those of ONE table per operator, shaped [level][order] (M2M, L2L) or [level][position code][order] (M2L).  A
+    # factored representation (a leaf-level slab and a per-level rescaling table, ...) can be just as right: its product is what would have to
+    # be compared, which this rule does not do - no verdict
+    per_op = {}
+    for t_, ops_ in users.items():
+        for o_ in ops_:
+            per_op.setdefault(o_, []).append(t_)
+    for o_, ts_ in sorted(per_op.items()):
+        if len(ts_) != 1:
+            raise AnalysisBroken("%s::%s reads %d level tables (%s): the per-level values are factored over several tables, the closed-form comparison of a single table does not apply - re-confirm by reading" % (K, o_, len(ts_), sorted(ts_)))
+        dims = len(re.findall(r"\[[^\]]*\]", fields[ts_[0]].get("t", "")))
+        if dims != (2 if o_ == "M2L" else 1):
+            raise AnalysisBroken("%s: the table '%s' read by %s is declared `%s`, not with the confirmed shape (%s): re-confirm by reading" % (K, ts_[0], o_, fields[ts_[0]].get("t", "")[:60], "[343][P+1] per level" if o_ == "M2L" else "[P+1] per level"))
     for t in sorted(level_tables):
         ops = users.get(t, set())
         if len(ops) != 1:
